@@ -2192,6 +2192,9 @@ def gen_tls_prog(rng, churn=False):
                 b.append((OP['KSET'], rng.choice((-1, 1024, 5000, -7)), 5, 1))
             else:
                 b.append((OP['KGET'], rng.choice((-1, 1024, 4096)), 0, 1))
+        if churn and rng.random() < 0.6:
+            # several threads delete the same key (slot 0 or 1, created by main) at about the same time: exactly one wins
+            b.insert(rng.randrange(len(b) + 1), (OP['KDELETE'], rng.choice((0, 1)), 0, 0))
         if churn:
             own = 200 + 10 * t
             for i in range(rng.randint(2, 4)):
